@@ -87,6 +87,15 @@ def main():
     if not os.path.exists(patch):
         print("no patch", patch)
         return 2
+    # area-based waves (W1 …): the properties the change claims to break are named in the first line of its notes
+    claimed = []
+    if not re.match(r"^C\d+$", args.prop):
+        first = (meta["agent_notes"].strip().splitlines() or [""])[0]
+        claimed = list(dict.fromkeys(re.findall(r"C\d\d", first)))
+        if not claimed:
+            claimed = list(dict.fromkeys(re.findall(r"C\d\d", meta["agent_notes"])))[:2]
+        meta["property"] = claimed[0] if claimed else "?"
+        meta["claimed_properties"] = claimed
     if not args.skip_validate:
         wt = "/tmp/seedval/%s" % name
         sh("git -C /repo worktree remove --force %s" % wt)
@@ -133,7 +142,8 @@ def main():
             sh("git -C /repo worktree remove --force %s" % wt)
             shutil.rmtree(wt, ignore_errors=True)
     # (3) the checks, against a private worktree with the patch applied (VERIF_REPO), so that /repo stays free
-    checks = [args.prop] + [c for c in args.checks.split(",") if c and c != args.prop]
+    primary = [args.prop] if re.match(r"^C\d+$", args.prop) else claimed
+    checks = primary + [c for c in args.checks.split(",") if c and c not in primary]
     wt = "/tmp/seedval/run-%s" % name
     sh("git -C /repo worktree remove --force %s" % wt)
     shutil.rmtree(wt, ignore_errors=True)
